@@ -8,6 +8,17 @@ import UnytProofs.C10Tab.Inv1
 import UnytProofs.C10Tab.Inv2
 import UnytProofs.C10Tab.Inv3
 import UnytProofs.C10Tab.Inv4
+import UnytProofs.C10Tab.PreEmNumCgs
+import UnytProofs.C10Tab.PreEmNumMks
+import UnytProofs.C10Tab.PreEmNumImperial
+import UnytProofs.C10Tab.PreEmNumGalactic
+import UnytProofs.C10Tab.PreEmNumSolar
+import UnytProofs.C10Tab.PreEmNumGeometrized
+import UnytProofs.C10Tab.PreEmNumPlanck
+import UnytProofs.C10Tab.PreEmCross1
+import UnytProofs.C10Tab.PreEmCross2
+import UnytProofs.C10Tab.PreEmCross3
+import UnytProofs.C10Tab.PreEmCross4
 import UnytProofs.C10Tab.PreCgs1
 import UnytProofs.C10Tab.PreCgs2
 import UnytProofs.C10Tab.PreMks1
@@ -35,6 +46,20 @@ theorem builtin_systems_closed_prefixed_partial :
   exact ⟨⟨tab_pre_cgs_1, tab_pre_cgs_2⟩, ⟨tab_pre_mks_1, tab_pre_mks_2⟩, ⟨tab_pre_imperial_1, tab_pre_imperial_2⟩,
     ⟨tab_pre_galactic_1, tab_pre_galactic_2⟩, ⟨tab_pre_solar_1, tab_pre_solar_2⟩,
     ⟨tab_pre_geometrized_1, tab_pre_geometrized_2⟩, ⟨tab_pre_planck_1, tab_pre_planck_2⟩⟩
+
+/-- the crossing branch is numerically right for every canonical SI prefix -/
+theorem em_cross_route_numbers_all_prefixes :
+    ([0, 1, 2, 3].all fun i => emCrossOk (canonicalPrefixChunk i)) = true := by
+  simp only [List.all_cons, List.all_nil, Bool.and_true, Bool.and_eq_true]
+  exact ⟨tab_pre_em_cross_1, tab_pre_em_cross_2, tab_pre_em_cross_3, tab_pre_em_cross_4⟩
+
+/-- the whole EM route with the prefixes `m` and `da`, every built-in system -/
+theorem em_route_numbers_prefixed :
+    (["cgs", "mks", "imperial", "galactic", "solar", "geometrized", "planck"].all fun s =>
+      emRouteNumbersSys s ["m", "da"]) = true := by
+  simp only [List.all_cons, List.all_nil, Bool.and_true, Bool.and_eq_true]
+  exact ⟨tab_pre_emnum_cgs, tab_pre_emnum_mks, tab_pre_emnum_imperial, tab_pre_emnum_galactic, tab_pre_emnum_solar,
+    tab_pre_emnum_geometrized, tab_pre_emnum_planck⟩
 
 /-- the regenerated tables satisfy the hypothesis of `user_system_usable`: what `__init__` infers
     about a base-unit symbol is what `Unit(symbol)` resolves to -/
